@@ -469,6 +469,10 @@ def _run_harness_forked(args, solo):
             part.violation(f"{name.split(':')[0]}:solo-result-changed-after-this-schedule",
                            {"kind": "c14forked", "harness": name, "ops": specs, "answers": list(ch.answers),
                             "opcode": opcode, "switches": log, "readback": True}, solo, after)
+        if part["stats"]["violating_cases"] >= 25:
+            # enough counterexamples for this harness; the remaining schedules are not explored
+            part.stat("forked_explorations_stopped_after_25_violating_schedules")
+            break
     part.stat("harnesses")
     part.stat("harnesses_rerun_with_fresh_process_per_execution")
     part.stat(f"bound_{bound}_{gran(opcode)}_harnesses")
@@ -532,6 +536,10 @@ def _run_harness(args, solo_before, traced, steps):
     if last is not None and not drifted:
         again = [sched.run_once(mk(), last[0], opcode=opcode) for _ in range(2)]
         for ch2, st2, res2 in again:
+            if (res2 != last[1] or st2.steps != last[2]) and deep_fingerprint() != fp_start:
+                drifted = True  # not the scheduler: the library state is no longer S0
+                part.stat("explorations_stopped_early_because_library_state_drifted")
+                break
             if res2 != last[1] or st2.steps != last[2]:
                 raise report.HarnessError(f"{name}: schedule {last[0]} does not replay deterministically: "
                                           f"{last[1]}/{last[2]} vs {res2}/{st2.steps}")
@@ -675,11 +683,16 @@ def replay(case: dict) -> dict:
         mk = lambda: [make_op(s) for s in specs]  # noqa: E731
     solo = [op() for op in mk()]
     sched.warm_up(mk(), case.get("opcode", False))
+    fp = deep_fingerprint()
     res1 = sched.run_once(mk(), tuple(case["answers"]), opcode=case.get("opcode", False))[2]
+    fp1 = deep_fingerprint()
     res2 = sched.run_once(mk(), tuple(case["answers"]), opcode=case.get("opcode", False))[2]
-    if res1 != res2:
+    if res1 != res2 and fp1 == fp:
+        # same schedule, same library state, different results: that would be the scheduler's fault
         raise report.HarnessError(f"schedule replay is not deterministic: {res1} vs {res2}")
-    return {"ok": res1 == solo, "expected": solo, "observed": res1}
+    # (if the library state moved, the second run started elsewhere - the first one is the replay)
+    return {"ok": res1 == solo, "expected": solo, "observed": res1,
+            "library_state_changed_by_the_replay": fp1 != fp}
 
 
 def main(tier: str) -> int:
